@@ -669,8 +669,9 @@ def run(ctx):
   ctx.extra['shared_point_family'] = dict(specs=len(family), dnas=sum(len(d) for _, _, d in family),
       what='choice / choice+literals / float / custom x named/unnamed (x outer named) inside candidate 1 of manyof(k, 3 candidates) in all four distinct x sorted modes; '
            'DNAs pick that candidate once, twice with equal and twice with different sub-values; every one of the 45 view combinations is round-tripped by the oracle')
-  specs = [(s, 'fixed') for s in FIXED_SPECS + FIXED_C12] + [(s, ('shared-point-family', dnas)) for _, s, dnas in family] + \
-          [(s, 'small+names/literals') for s in chosen] + [(s, 'random') for s in rand_specs]
+  tail = [(s, 'small+names/literals') for s in chosen] + [(s, 'random') for s in rand_specs]
+  rng.shuffle(tail)      # a wall-clock cut on a busy machine then hits both groups proportionally
+  specs = [(s, 'fixed') for s in FIXED_SPECS + FIXED_C12] + [(s, ('shared-point-family', dnas)) for _, s, dnas in family] + tail
   if os.environ.get('C12_MAXSPECS'):
     specs = specs[::max(1, len(specs) // int(os.environ['C12_MAXSPECS']))]
   jobs = [(si, s, origin, rng.getrandbits(48), Q, P) for si, (s, origin) in enumerate(specs)]
